@@ -158,7 +158,7 @@ fn jobs(ctx: &Ctx) -> Vec<Job> {
                 Box::new(move |acc: &mut Acc| {
                     let c = Ctx { prop: "C17".into(), tier: Tier::Quick, seed, threads: 1, scale: 1.0 };
                     let mut r = fw::runner(&c, (ei * 1000 + b) as u64);
-                    let prof = Profile { max_tokens: 14, small_caps_weight: 128, queries: false, modes: &hist::ALL_MODES, sinks: &hist::ALL_SINKS, bom_prefix_weight: 48 };
+                    let prof = Profile { max_tokens: 14, small_caps_weight: 128, queries: false, exact_queries: false, modes: &hist::ALL_MODES, sinks: &hist::ALL_SINKS, bom_prefix_weight: 48 };
                     let strat = hist::history(enc, prof);
                     let mut drv = DecDriver::new();
                     for _ in 0..per_block {
@@ -194,7 +194,7 @@ fn jobs(ctx: &Ctx) -> Vec<Job> {
                 Box::new(move |acc: &mut Acc| {
                     let c = Ctx { prop: "C17".into(), tier: Tier::Quick, seed, threads: 1, scale: 1.0 };
                     let mut r = fw::runner(&c, (50_000 + ei * 1000 + b) as u64);
-                    let strat = hist_enc::history(enc, EProfile { max_chars: 24, small_caps_weight: 128, queries: false, mappable_only: false });
+                    let strat = hist_enc::history(enc, EProfile { max_chars: 24, small_caps_weight: 128, queries: false, exact_queries: false, mappable_only: false });
                     let mut drv = EncDriver::new();
                     for _ in 0..per_block {
                         let h = strat.new_tree(&mut r).unwrap().current();
